@@ -77,12 +77,14 @@ Theorem collect_exact : forall h rg minptr maxptr order tls stack fuel rg' fin,
 Proof. exact MarkSweepProofs.collect_exact_thm. Qed.
 Print Assumptions collect_exact.
 
-(* (5) the same at every collection point of an allocation history: the `nitems > mitems`
+(* (5) the same at every collection point of an allocation history, for EVERY threshold policy nm (what
+   gc->mitems is set to after a sweep / a removal decides only WHEN a collection runs; the source's policy
+   reaches the executable model through Generated.gc_next_mitems): the `nitems > mitems`
    trigger inside alloc (the newborn's address is among the stack words: `extra`) or a forced
    collection; the registry-side invariants (range_ok, order_ok) are re-established *)
-Theorem threshold_collect_safe : forall s e s1 extra,
+Theorem threshold_collect_safe : forall (nm : policy) s e s1 extra,
   collection_point s e = Some (s1, extra) -> inv s1 -> heap_ok s1 ->
-  exists s' fin, step gc_tls_recurses gc_mar_guarded gc_finaliser_alloc_widens s e = Ok (s', fin) /\ collection_safe s1 extra fin s' /\ inv s'.
+  exists s' fin, step gc_tls_recurses gc_mar_guarded gc_finaliser_alloc_widens nm s e = Ok (s', fin) /\ collection_safe s1 extra fin s' /\ inv s'.
 Proof. exact MarkSweepProofs.threshold_collect_safe_lemma. Qed.
 Print Assumptions threshold_collect_safe.
 
@@ -90,7 +92,7 @@ Print Assumptions threshold_collect_safe.
    root changes, explicit deletions and forced collections, started from a state satisfying the registry invariants (e.g. the empty one):
    as long as each alloc returns a fresh aligned address and the heap is well formed at each
    collection point, no step fails and every collection in the history is safe *)
-Theorem history_collect_safe : forall es s, inv s -> hist_safe gc_tls_recurses gc_mar_guarded gc_finaliser_alloc_widens s es.
+Theorem history_collect_safe : forall (nm : policy) es s, inv s -> hist_safe gc_tls_recurses gc_mar_guarded gc_finaliser_alloc_widens nm s es.
 Proof. exact MarkSweepProofs.history_collect_safe_lemma. Qed.
 Print Assumptions history_collect_safe.
 
@@ -104,7 +106,7 @@ Proof. exact MarkSweepProofs.inv_st0. Qed.
 Example threshold_hypotheses_inhabited :
   event_ok ex_state ex_event /\
   collection_point ex_state ex_event = Some (ex_state1, cons w64 nil) /\ inv ex_state1 /\ heap_ok ex_state1 /\
-  exists s', step gc_tls_recurses gc_mar_guarded gc_finaliser_alloc_widens ex_state ex_event = Ok (s', nil).
+  exists s', step gc_tls_recurses gc_mar_guarded gc_finaliser_alloc_widens mitems_3_2 ex_state ex_event = Ok (s', nil).
 Proof. exact MarkSweepProofs.ex_threshold_point. Qed.
 
 (* non-vacuity of the hypotheses: a heap with a cycle through an Array of Ref, a shared Box, a
@@ -130,7 +132,7 @@ Print Assumptions mark_diverges_on_raw_tuple_cycle.
 (* histories with an allocation by a finaliser are not vacuous: the garbage object w8 is swept, its
    finaliser allocates w16 and publishes it into a stack slot, the next collection keeps it *)
 Example finaliser_allocation_history_kept :
-  exists s, run gc_tls_recurses gc_mar_guarded gc_finaliser_alloc_widens st0 fin_hist
+  exists s, run gc_tls_recurses gc_mar_guarded gc_finaliser_alloc_widens mitems_3_2 st0 fin_hist
             = Ok (s, cons nil (cons nil (cons (cons w8 nil) (cons nil (cons nil (cons nil nil)))))).
 Proof. exact MarkSweepProofs.fin_hist_kept_post. Qed.
 
@@ -139,11 +141,11 @@ Proof. exact MarkSweepProofs.fin_hist_kept_post. Qed.
    is registered and reachable from the stack *)
 Theorem finaliser_alloc_window_refuted :
   exists s5 fr5 s6,
-    run true true false st0 (firstn 5 fin_hist) = Ok (s5, fr5) /\
+    run true true false mitems_3_2 st0 (firstn 5 fin_hist) = Ok (s5, fr5) /\
     registered (st_reg s5) w16 = true /\
     reach (st_heap s5) (st_reg s5) (st_tls s5) (st_stack s5) w16 /\
     ~ range_ok (st_reg s5) (st_minptr s5) (st_maxptr s5) /\
-    step true true false s5 ECollect = Ok (s6, cons w16 nil).
+    step true true false mitems_3_2 s5 ECollect = Ok (s6, cons w16 nil).
 Proof. exact MarkSweepProofs.fin_hist_freed_pre. Qed.
 Print Assumptions finaliser_alloc_window_refuted.
 
